@@ -156,6 +156,7 @@ func loadRepo(dir string, overlay map[string][]byte) (*Ctx, error) {
 	}
 	c.aliasMovedFuncs()
 	curCtx = c
+	c.aliasOutlinedBodies()
 	paramCellMemo = map[*ssa.Parameter]*ssa.Alloc{}
 	fnKeyMemo = map[*ssa.Function]string{}
 	permMemo = map[*ssa.Function][]string{}
@@ -271,10 +272,20 @@ func (c *Ctx) fn(name string) *ssa.Function { return c.byName[name] }
 
 // nameOf is the inverse of fn, for reports.
 func (c *Ctx) nameOf(f *ssa.Function) string {
+	// a function can have several keys (its own and the pinned one it stands for): the pinned one, else the smallest
+	best := ""
 	for k, v := range c.byName {
-		if v == f {
-			return k
+		if v != f {
+			continue
 		}
+		_, kp := pinnedParams[k]
+		_, bp := pinnedParams[best]
+		if best == "" || (kp && !bp) || (kp == bp && k < best) {
+			best = k
+		}
+	}
+	if best != "" {
+		return best
 	}
 	if f.Origin() != nil && f.Origin() != f {
 		return c.nameOf(f.Origin())
@@ -339,4 +350,94 @@ func (c *Ctx) info(rel string) *types.Info {
 func (c *Ctx) pos(p token.Pos) string {
 	pp := c.Fset.Position(p)
 	return fmt.Sprintf("%s:%d", relPath(c.RepoDir, pp.Filename), pp.Line)
+}
+
+
+// forwardedParam: parameters of an outlined body (see aliasOutlinedBodies) → the value the forwarder passes; path() prints the
+// latter, so `senderErr` inside pipeRecv reads as s.senderErr.
+var forwardedParam = map[*ssa.Parameter]ssa.Value{}
+
+// aliasOutlinedBodies: a function the rules know by name whose body has been moved, whole, into an unexported helper of the
+// package that takes the state as parameters (func (s *pipeStream[T]) Next(ctx) (T, error) { return pipeRecv(ctx, s.c,
+// s.senderDone, s.senderErr) }): when the named function does nothing but load fields of its parameters, call that helper
+// and return its results, and nobody else calls the helper, the name denotes the helper (its literals included) and the
+// helper's parameters denote what the forwarder passes.
+func (c *Ctx) aliasOutlinedBodies() {
+	forwardedParam = map[*ssa.Parameter]ssa.Value{}
+	var keys []string
+	for k := range c.byName {
+		if !strings.Contains(k, "$") {
+			keys = append(keys, k)
+		}
+	}
+	sort.Strings(keys)
+	for _, k := range keys {
+		f := c.byName[k]
+		if f == nil || f.Parent() != nil || len(f.Blocks) != 1 || len(f.AnonFuncs) > 0 {
+			continue
+		}
+		var call *ssa.Call
+		thin := true
+		for _, in := range f.Blocks[0].Instrs {
+			switch x := in.(type) {
+			case *ssa.FieldAddr, *ssa.DebugRef, *ssa.Extract, *ssa.Return:
+			case *ssa.UnOp:
+				if x.Op != token.MUL {
+					thin = false
+				}
+			case *ssa.Call:
+				if call != nil {
+					thin = false
+				}
+				call = x
+			default:
+				thin = false
+			}
+		}
+		if !thin || call == nil {
+			continue
+		}
+		h := origin(call.Call.StaticCallee())
+		if h == nil || h.Blocks == nil || h.Parent() != nil || token.IsExported(h.Name()) || rootFn(h).Pkg != rootFn(f).Pkg || len(h.Blocks) < 2 || h == f {
+			continue
+		}
+		if len(callCommonsOf(c, h)) != 1 || len(call.Call.Args) != len(h.Params) {
+			continue
+		}
+		// the results are the helper's, unchanged
+		okRet := false
+		if ret, isRet := f.Blocks[0].Instrs[len(f.Blocks[0].Instrs)-1].(*ssa.Return); isRet {
+			okRet = true
+			for i, rv := range ret.Results {
+				switch y := rv.(type) {
+				case *ssa.Call:
+					okRet = okRet && y == call && len(ret.Results) == 1
+				case *ssa.Extract:
+					okRet = okRet && y.Tuple == ssa.Value(call) && y.Index == i
+				default:
+					okRet = false
+				}
+			}
+			if len(ret.Results) != h.Signature.Results().Len() {
+				okRet = false
+			}
+		}
+		if !okRet {
+			continue
+		}
+		for i, p := range h.Params {
+			forwardedParam[p] = call.Call.Args[i]
+		}
+		c.byName[k] = h
+		var walk func(parent *ssa.Function, pkey string)
+		walk = func(parent *ssa.Function, pkey string) {
+			for i, a := range parent.AnonFuncs {
+				kk := fmt.Sprintf("%s$%d", pkey, i+1)
+				c.byName[kk] = a
+				walk(a, kk)
+			}
+		}
+		walk(h, k)
+		c.movedFuncs = append(c.movedFuncs, k+" <- body outlined into "+h.Name())
+	}
 }
